@@ -293,7 +293,8 @@ def run(ctx):
         lits = [case_lit(c, i) for c, i in zip(cases, impls)]
         (bad_model, bad_spec), errs = vlib.coq_bad_indices(
             'C12', ['Gen.ConstantTime', 'Spec.CbcCheck', 'Toy.ToyMac'], 'CaseT',
-            ['chk_model', 'chk_spec'], lits, shard=max(8, (len(lits) + 15) // 16) if quick else 100, preamble=PREAMBLE)
+            ['chk_model', 'chk_spec'], lits, shard=max(8, (len(lits) + 15) // 16) if quick else 100, preamble=PREAMBLE,
+            timeout=900 if quick else 6000)
         ctx.count('model-vs-impl(vm_compute)', len(lits), [('n', len(lits) - len(bad_model))])
         for e in errs:
             tie_broken = 'case evaluation failed: ' + e[:300]
